@@ -22,6 +22,45 @@ CHECKS = {
     ),
 }
 
+CHECKS.update({
+    "C10": (
+        "exploration",
+        "differential oracle: random operator programs over every matrix class vs an independent dense shadow",
+        "Runtime differential monitor over generated expression trees: every class and constructor option (signs, "
+        "lower/upper, supplied factors/LU/eigendecompositions, implicit sizes, inner matrices, nested blocks and low-rank "
+        "parts, sizes 1-6) is combined by random programs of T/inv/sqrt/neg/scalar ops/Matrix@Matrix/block/low-rank "
+        "composition (depth <=4 quick, <=8 thorough); after every step array, products, diagonal, transpose, "
+        "log_abs_det, inverse, eigen-decomposition and sqrt are compared with dense numpy algebra and class-retention "
+        "rules are checked. Exploration: the space of expression trees is unbounded; coverage is counted by (leaf, "
+        "operator sequence).",
+        "Trusts numpy/scipy dense algebra on shadows with cond <= 1e6; tolerance 1e-7 relative; low-rank factors are "
+        "generated with full column rank (dim_inner <= dim_outer).",
+        "DESIGN.md section 3, C10",
+    ),
+    "C11": (
+        "exploration",
+        "differential oracle: reported gradients vs 4th-order finite differences of the dense parametrisation",
+        "Runtime differential monitor: for every differentiable matrix class and option (both signs, lower/upper, "
+        "with/without inner matrix, SoftAbs coefficients 1e-2..1e2, block compositions, well separated / nearly equal / "
+        "bit-identical Hessian eigenvalues) grad_log_abs_det and grad_quadratic_form_inv are compared along a complete "
+        "basis of parameter directions, and in structure, with finite differences of log|det| and v'M^-1v of the dense "
+        "formula.",
+        "Finite differences decide to ~2e-6 relative; symmetric-array parameters judged along symmetric directions.",
+        "DESIGN.md section 3, C11",
+    ),
+    "C19": (
+        "exploration",
+        "invariant monitors: operand content hashing, access-order permutation, equality/hash/copy laws, write probes",
+        "Runtime monitors on real matrix objects: (1) sha1 of every caller-supplied array and operand before/after every "
+        "operation and lazy-attribute access of generated operator programs; (2) equal-parameter instances queried in "
+        "independent random attribute orders must agree and be bitwise repeatable; (3) ==/hash/copy/deepcopy/pickle "
+        "laws before and after lazy attributes exist; (4) near-miss pairs: == must imply equal arrays; (5) in-place "
+        "writes through parameter arrays must raise or leave the operator unchanged.",
+        "Order independence compared at 1e-12 relative; write probes cover parameter arrays, not derived caches.",
+        "DESIGN.md section 3, C19",
+    ),
+})
+
 NOT_YET = "check not built yet in this session (in progress; see DESIGN.md section 3 for the planned monitor)"
 
 
